@@ -62,6 +62,8 @@ def err_of(e):
         return "Key"
     if isinstance(e, IndexError):
         return "Index"
+    if type(e).__module__.startswith("networkx") and type(e).__name__ in ("NetworkXError", "NodeNotFound"):
+        return "NoNode"
     if type(e) is Exception:
         m = str(e)
         if "Cell not empty" in m:
@@ -95,6 +97,22 @@ def sp(s):
 def split_script(ws):
     i = ws.index(":")
     return ws[:i], [int(x) for x in ws[i + 1:]]
+
+
+def parse_ix(tok):
+    """`I<int>` -> int, `S<start>/<stop>/<step>` (with `_` = None) -> slice"""
+    if tok[0] == "I":
+        return int(tok[1:])
+    assert tok[0] == "S"
+    a, b, c = (None if t == "_" else int(t) for t in tok[1:].split("/"))
+    return slice(a, b, c)
+
+
+def fmt_ix(ix):
+    if isinstance(ix, int):
+        return f"I{ix}"
+    f = lambda v: "_" if v is None else str(v)  # noqa: E731
+    return f"S{f(ix.start)}/{f(ix.stop)}/{f(ix.step)}"
 
 
 def pairs(xs):
@@ -177,6 +195,13 @@ class GridImpl:
         if k == "remove":
             g.remove_agent(A[int(w[1])])
             return "ok", None
+        if k == "foreign":
+            # outside the quantifier: a second grid of the same class and shape places the agent (writes agent.pos)
+            a, p = A[int(w[1])], (int(w[2]), int(w[3]))
+            if a.pos is not None or not (0 <= p[0] < self.w and 0 <= p[1] < self.h):
+                return "bad-op", None
+            type(g)(self.w, self.h, self.torus).place_agent(a, p)
+            return "ok", None
         if k == "move":
             g.move_agent(A[int(w[1])], (int(w[2]), int(w[3])))
             return "ok", None
@@ -220,6 +245,25 @@ class GridImpl:
             return "ok " + fmt_cell(v), v
         if k == "dump":
             return self.fmt_dump(self.snap()), None
+        if k == "geti":
+            v = [self.ids(c) for c in g[int(w[1])]]
+            return sp(" ".join(fmt_cell(c) for c in v)), v
+        if k == "getl":
+            ps = pairs(w[2:])
+            assert len(ps) == int(w[1])
+            v = [self.ids(c) for c in g[tuple(ps)]]
+            return sp(" ".join(fmt_cell(c) for c in v)), v
+        if k == "gets":
+            ix, iy = parse_ix(w[1]), parse_ix(w[2])
+            r = g[ix, iy]
+            v = [self.ids(r)] if isinstance(ix, int) and isinstance(iy, int) else [self.ids(c) for c in r]
+            return sp(" ".join(fmt_cell(c) for c in v)), v
+        if k == "tadj":
+            x, y = g.torus_adj((int(w[1]), int(w[2])))
+            return f"ok {int(x)},{int(y)}", (int(x), int(y))
+        if k == "oob":
+            v = bool(g.out_of_bounds((int(w[1]), int(w[2]))))
+            return f"ok {int(v)}", v
         if k in ("nbhd", "inbhd", "nbrs", "inbrs", "nmask"):
             pos, moore, ic, r = (int(w[1]), int(w[2])), w[3] == "1", w[4] == "1", int(w[5])
             if k == "nbhd":
@@ -253,7 +297,8 @@ class GridImpl:
                 arg = cs[0] if len(cs) == 1 else cs  # a single position may be passed bare (accept_tuple_argument)
                 it = g.get_cell_list_contents(arg)
             else:
-                it = list(g.iter_cell_list_contents(cs))
+                # the iterator form also accepts a bare tuple; passed bare when the coordinate sum is even
+                it = list(g.iter_cell_list_contents(cs[0] if len(cs) == 1 and sum(cs[0]) % 2 == 0 else cs))
             v = [self.idx[a] for a in it]
             return sp(" ".join(map(str, v))), v
         raise AssertionError(f"unknown op {w}")
@@ -312,10 +357,14 @@ class NetImpl:
         if k == "nnbrs":
             v = [self.idx[a] for a in g.get_neighbors(int(w[1]), w[2] == "1", int(w[3]))]
             return sp(" ".join(map(str, v))), v
-        if k == "nclc":
+        if k in ("nclc", "niclc"):
             vs = [int(x) for x in w[2:]]
             assert len(vs) == int(w[1])
-            v = [self.idx[a] for a in g.get_cell_list_contents(vs)]
+            it = g.get_cell_list_contents(vs) if k == "nclc" else list(g.iter_cell_list_contents(vs))
+            v = [self.idx[a] for a in it]
+            return sp(" ".join(map(str, v))), v
+        if k == "nallc":
+            v = [self.idx[a] for a in g.get_all_cell_contents()]
             return sp(" ".join(map(str, v))), v
         if k == "nagents":
             v = [self.idx[a] for a in g.agents]
@@ -411,6 +460,86 @@ def mte_script(R, impl):
             s = s[: R.randrange(len(s))]
         return s
     return [] if R.random() < 0.08 else [R.randrange(1000)]
+
+
+def any_int(R, n):
+    """an index for a list of length n: mostly in range, also negative aliases and beyond"""
+    k = R.random()
+    if k < 0.5:
+        return R.randrange(n)
+    if k < 0.8:
+        return R.randint(-n - 2, n + 1)
+    return R.randint(-3 * n - 1, 3 * n + 1)
+
+
+def any_slice(R, n):
+    b = lambda: None if R.random() < 0.35 else R.randint(-n - 2, n + 2)  # noqa: E731
+    st = R.choice([None, None, None, 1, 1, 2, 3, -1, -1, -2, 0])
+    return slice(b(), b(), st)
+
+
+def gen_index_read(R, w, h):
+    """one read through the indexing / raw-coordinate paths: arbitrary ints (Python aliasing), slices, position tuples"""
+    k = R.random()
+    if k < 0.2:
+        return f"isempty {any_int(R, w)} {any_int(R, h)}"
+    if k < 0.3:
+        return f"geti {any_int(R, w)}"
+    if k < 0.45:
+        ps = [any_coord(R, w, h) if R.random() < 0.3 else (R.randrange(w), R.randrange(h)) for _ in range(R.choice([0, 1, 1, 2, 3]))]
+        return f"getl {len(ps)} " + " ".join(f"{x} {y}" for x, y in ps)
+    if k < 0.85:
+        m = R.random()
+        ix = any_slice(R, w) if m < 0.7 else any_int(R, w)
+        iy = any_slice(R, h) if (m < 0.4 or m >= 0.7) else any_int(R, h)
+        return f"gets {fmt_ix(ix)} {fmt_ix(iy)}"
+    if k < 0.93:
+        x, y = any_coord(R, w, h)
+        return f"tadj {x} {y}"
+    x, y = any_coord(R, w, h)
+    return f"oob {x} {y}"
+
+
+def exhaustive_index_c08():
+    """every slice with bounds in None / -n-1 .. n+1 and steps None, ±1, ±2, 3, 0 on both axes of small grids (the other
+    component a fixed int), every int index -2n .. 2n for grid[x] / is_cell_empty, on a bounded MultiGrid and a toroidal SingleGrid"""
+    out = []
+    for kind, w, h, torus in (("multi", 3, 2, False), ("single", 2, 4, True), ("hexsingle", 1, 3, False)):
+        lines = [grid_header(kind, w, h, torus, False, 3)]
+        lines += ["place 0 0 0", f"place 1 {w - 1} {h - 1}", f"place 2 {w - 1} {h - 1}" if kind == "multi" else f"place 2 0 {h - 1}"]
+        for axis, n in (("x", w), ("y", h)):
+            bounds = [None] + list(range(-n - 1, n + 2))
+            for a in bounds:
+                for b_ in bounds:
+                    for st in (None, 1, 2, 3, -1, -2, 0):
+                        sl = fmt_ix(slice(a, b_, st))
+                        lines.append(f"gets {sl} I0" if axis == "x" else f"gets I0 {sl}")
+            for a in (None, 0, 1, -1):
+                for st in (None, -1, 2, 0):
+                    lines.append(f"gets {fmt_ix(slice(a, None, st))} {fmt_ix(slice(None, a, st))}")
+                    lines.append(f"gets {fmt_ix(slice(1, 1, None))} {fmt_ix(slice(a, None, st))}")
+        for x in range(-2 * w - 1, 2 * w + 2):
+            lines.append(f"geti {x}")
+            for y in range(-2 * h - 1, 2 * h + 2):
+                lines.append(f"isempty {x} {y}")
+                lines.append(f"clc 1 {x} {y}")
+            lines.append(f"gets I{x} S_/_/_")
+            lines.append(f"gets S_/_/_ I{x}")
+        out.append(core.Scenario(lines, {"exhaustive": True}))
+    return out
+
+
+def foreign_agent_scenarios():
+    """outside the quantifier, tie only: an agent that lives on another grid is removed / moved / swapped here (SingleGrid.remove_agent
+    clears the cell without looking and evicts the occupant; MultiGrid raises ValueError)"""
+    out = []
+    for kind in KINDS:
+        for torus in (0, 1):
+            lines = [grid_header(kind, 3, 2, torus, False, 4), "place 1 1 1", "place 2 0 0", "empties", "foreign 0 1 1", "dump",
+                     "remove 0", "dump", "empties", "mask", "agents", "foreign 0 0 0", "move 0 2 1", "dump", "foreign 3 2 1", "swap 3 2",
+                     "dump", "remove 1", "dump", "foreign 1 2 0", "mto 1 closest none 2 0 1 5 5 : 1 0", "dump", "mte 2 : 3", "dump"]
+            out.append(core.Scenario(lines, {"oq": True}))
+    return out
 
 
 def gen_c08(R, tier, rejecting=False):
@@ -516,6 +645,8 @@ def gen_c08(R, tier, rejecting=False):
                 b.add(f"move {R.choice(unplaced)} {x} {y}")
             elif kind_ == "mte-unplaced":
                 b.add(f"mte {R.choice(unplaced)} : " + " ".join(map(str, mte_script(R, impl))))
+        elif oq and unplaced and k < 0.10:
+            b.add(f"foreign {R.choice(unplaced)} {R.randrange(w)} {R.randrange(h)}")
         elif k < 0.22 and (unplaced or (oq and placed)):
             a = R.choice(placed) if (oq and placed and (not unplaced or R.random() < 0.6)) else R.choice(unplaced)
             x, y = R.randrange(w), R.randrange(h)
@@ -556,8 +687,10 @@ def gen_c08(R, tier, rejecting=False):
                 b.add("empties")
             elif j < 0.3:
                 b.add("exists")
-            elif j < 0.45:
+            elif j < 0.40:
                 b.add(f"isempty {R.randrange(w)} {R.randrange(h)}")
+            elif j < 0.45:
+                b.add(gen_index_read(R, w, h))
             elif j < 0.58:
                 b.add("mask")
             elif j < 0.7:
@@ -572,6 +705,158 @@ def gen_c08(R, tier, rejecting=False):
     return b.scenario({"oq": True} if oq else None)
 
 
+def random_graph(R, n):
+    p = R.choice([0.0, 0.15, 0.3, 0.5, 1.0])
+    cand = [(a, c) for a in range(n) for c in range(a + 1, n) if R.random() < p]
+    R.shuffle(cand)
+    return [(a, c) if R.random() < 0.5 else (c, a) for a, c in cand]
+
+
+def gen_c08_net(R, tier, rejecting=False):
+    """NetworkGrid as a space: histories of place / move / remove (existing and missing nodes, placed and
+    unplaced agents) interleaved with the reads; a dump (pos, node lists) follows every mutating call"""
+    n = R.randint(1, 7)
+    edges = random_graph(R, n)
+    nag = R.randint(1, 6)
+    b = Builder(f"scenario net {n} {nag} {len(edges)} " + " ".join(f"{a} {c}" for a, c in edges))
+    impl = b.impl
+    node = lambda: R.randrange(n)  # noqa: E731
+    missing = lambda: n + R.randrange(3)  # noqa: E731
+    p_bad = 0.45 if rejecting else 0.12
+    # 5% of the histories leave the quantifier (place_agent of an agent that is already in the space: it ends up in two node
+    # lists): model-vs-code tie only, the oracle does not apply
+    oq = (not rejecting) and R.random() < 0.05
+    if rejecting:
+        for a in range(nag):
+            if R.random() < 0.7:
+                b.add(f"nplace {a} {node()}")
+        b.add("ndump")
+    for _ in range(R.randint(5, 30 if tier == "quick" else 45)):
+        placed = [i for i, a in enumerate(impl.agents) if a.pos is not None]
+        unplaced = [i for i, a in enumerate(impl.agents) if a.pos is None]
+        k = R.random()
+        mut = True
+        if k < 0.2 and (unplaced or (oq and placed)):
+            a = R.choice(placed) if (oq and placed and (not unplaced or R.random() < 0.6)) else R.choice(unplaced)
+            b.add(f"nplace {a} {missing() if R.random() < p_bad else node()}")
+        elif k < 0.5 and (placed or unplaced):
+            a = R.choice(unplaced) if unplaced and (not placed or R.random() < p_bad / 2) else R.choice(placed)
+            if placed and a in placed and R.random() < 0.15:
+                v = impl.agents[a].pos  # onto its own node: goes to the end of the list
+            else:
+                v = missing() if R.random() < p_bad else node()
+            b.add(f"nmove {a} {v}")
+        elif k < 0.62 and (placed or unplaced):
+            a = R.choice(unplaced) if unplaced and (not placed or R.random() < p_bad) else R.choice(placed)
+            b.add(f"nremove {a}")
+        else:
+            mut = False
+            j = R.random()
+            if j < 0.2:
+                b.add(f"nisempty {missing() if R.random() < 0.15 else node()}")
+            elif j < 0.45:
+                vs = [missing() if R.random() < 0.06 else node() for _ in range(R.randrange(5))]
+                b.add(f"{R.choice(['nclc', 'niclc'])} {len(vs)} " + " ".join(map(str, vs)))
+            elif j < 0.6:
+                b.add("nallc")
+            elif j < 0.75:
+                b.add("nagents")
+            else:
+                r = R.choice([0, 1, 1, 1, 2, 2, 3, n])
+                b.add(f"{R.choice(['nnbrs', 'nnbrs', 'nnbhd'])} {node()} {int(R.random() < 0.5)} {r}")
+        if mut:
+            b.add("ndump")
+    return b.scenario({"oq": True} if oq else None)
+
+
+def exhaustive_c08_net():
+    """bounded-exhaustive NetworkGrid state machine: every history of length <= 3 (two agents) and <= 4 (one agent) over
+    {place a v, move a v, remove a} with v in {0, 1, 2 = a node that does not exist} that stays within the quantifier
+    (place_agent of unplaced agents only), each followed by a dump; NetworkGrid has no hidden state, so removing the
+    placed agents returns to the initial state and all histories are chained in one scenario per setting"""
+    import itertools
+
+    out = []
+    for nag, length in ((2, 3), (1, 4)):
+        ops = [(k, a, v) for a in range(nag) for k in ("nplace", "nmove") for v in (0, 1, 2)] + [("nremove", a, None) for a in range(nag)]
+        lines = [f"scenario net 2 {nag} 1 0 1"]
+        for hist in itertools.product(ops, repeat=length):
+            placed, ok, body = set(), True, []
+            for k, a, v in hist:
+                if k == "nplace":
+                    if a in placed:
+                        ok = False
+                        break
+                    if v < 2:
+                        placed.add(a)
+                elif k == "nremove":
+                    placed.discard(a)
+                body.append(f"{k} {a}" + ("" if v is None else f" {v}"))
+                body.append("ndump")
+            if not ok:
+                continue
+            lines += body + ["nallc"] + [f"nremove {a}" for a in sorted(placed)]
+        out.append(core.Scenario(lines, {"exhaustive": True}))
+    return out
+
+
+def exhaustive_c08_grid():
+    """bounded-exhaustive grid state machine on a 2x1 grid with two agents: every within-quantifier history of length <= 3 over
+    {place a c, remove a, move a t (in-grid, x beyond the edge, y beyond the edge), swap} — first with `empties` never read, then
+    (length <= 2) with `empties` built —, a dump after every call.  Removing both agents returns to the initial observable state
+    (`remove_agent` of an unplaced agent is silent on a SingleGrid and a rejected TypeError on a MultiGrid), so the histories are
+    chained in one scenario per class and torus flag.  A tiny simulation of occupancy decides which `place` calls are within
+    the quantifier (an error in it would show as an oracle failure on the unchanged tree)."""
+    import itertools
+
+    cells = [(0, 0), (1, 0)]
+    targets = [(0, 0), (1, 0), (2, 0), (0, -1)]
+    ops = [("swap", 0, 1)]
+    for a in (0, 1):
+        ops += [("place", a, c) for c in cells] + [("remove", a, None)] + [("move", a, t) for t in targets]
+
+    def simulate(hist, multi, torus):
+        """-> lines or None if a place call would leave the quantifier"""
+        pos, body = {0: None, 1: None}, []
+        occ = lambda c, but=None: [b for b in pos if pos[b] == c and b != but]  # noqa: E731
+        for k, a, x in hist:
+            if k == "place":
+                if pos[a] is not None:
+                    return None
+                if multi or not occ(x):
+                    pos[a] = x
+                body.append(f"place {a} {x[0]} {x[1]}")
+            elif k == "remove":
+                pos[a] = None
+                body.append(f"remove {a}")
+            elif k == "move":
+                t = x if x in cells else ((x[0] % 2, x[1] % 1) if torus else None)
+                if t is not None and (pos[a] is not None or not multi) and (multi or not occ(t, a)):
+                    pos[a] = t
+                body.append(f"move {a} {x[0]} {x[1]}")
+            else:
+                if pos[0] is not None and pos[1] is not None:
+                    pos[0], pos[1] = pos[1], pos[0]
+                body.append("swap 0 1")
+            body.append("dump")
+        return body + ["remove 0", "remove 1"]
+
+    out = []
+    for kind in ("single", "multi"):
+        for torus in (0, 1):
+            lines = [grid_header(kind, 2, 1, torus, False, 2)]
+            for built, length in ((False, 3), (True, 2)):
+                if built:
+                    lines += ["empties", "dump"]
+                for n in range(1, length + 1):
+                    for hist in itertools.product(ops, repeat=n):
+                        body = simulate(hist, kind == "multi", torus)
+                        if body:
+                            lines += body + (["empties", "mask"] if built and n == length else [])
+            out.append(core.Scenario(lines, {"exhaustive": True}))
+    return out
+
+
 RADII = [1, 1, 1, 2, 2, 3, 4, 7]
 
 
@@ -580,8 +865,12 @@ def gen_c09_grid(R, tier):
     hexk = kind.startswith("hex")
     w, h = R.randint(1, 7), R.randint(1, 7)
     torus = R.random() < 0.5
+    oq = False
     if hexk and torus and w % 2:
-        w += 1
+        if R.random() < 0.12:
+            oq = True  # odd-width hex torus: no wrapped hexagonal tiling exists (outside the quantifier) — model-vs-code tie only
+        else:
+            w += 1
     multi = kind in ("multi", "hexmulti")
     nag = R.randint(0, 8)
     b = Builder(grid_header(kind, w, h, torus, R.random() < 0.2, nag))
@@ -595,6 +884,15 @@ def gen_c09_grid(R, tier):
                 if e:
                     x, y = R.choice(e)
                     b.add(f"place {a} {x} {y}")
+    stack = None
+    if multi and nag >= 3 and R.random() < 0.5:
+        # several agents on one cell: queried with and without include_center, from the cell itself and from a neighbour
+        stack = (R.randrange(w), R.randrange(h))
+        for a in R.sample(range(nag), R.randint(2, min(4, nag))):
+            if impl.agents[a].pos is None:
+                b.add(f"place {a} {stack[0]} {stack[1]}")
+            else:
+                b.add(f"move {a} {stack[0]} {stack[1]}")
     keys = []
     for _ in range(R.randint(8, 30)):
         k = R.random()
@@ -607,9 +905,11 @@ def gen_c09_grid(R, tier):
         if keys and R.random() < 0.3:
             pos, moore, ic, r = R.choice(keys)  # a repeated key: answered from the cache
         else:
-            pos = (R.randrange(w), R.randrange(h)) if (hexk or R.random() < 0.93) else any_coord(R, w, h)
+            pos = (R.randrange(w), R.randrange(h)) if R.random() < (0.95 if hexk else 0.93) else any_coord(R, w, h)
+            if stack and R.random() < 0.35:
+                pos = stack if R.random() < 0.5 else (min(w - 1, stack[0] + R.randrange(2)), max(0, stack[1] - R.randrange(2)))
             moore, ic = R.random() < 0.5, R.random() < 0.5
-            r = R.choice(RADII + [w, h, max(w, h) + 1])
+            r = R.choice(RADII + [w, h, max(w, h) + 1, 0])
             if hexk and r > 6:
                 r = 5
             keys.append((pos, moore, ic, r))
@@ -617,22 +917,22 @@ def gen_c09_grid(R, tier):
         if hexk:
             op = R.choice(["hnbhd", "hnbhd", "ihnbhd", "hnbrs", "hnbrs", "ihnbrs"])
             b.add(f"{op} {x} {y} {int(ic)} {r}")
+            if R.random() < 0.03:
+                b.add(f"nmask {x} {y} {int(moore)} {int(ic)} {r}")  # inherited, but calls the hex get_neighborhood with 4 arguments
         else:
             op = R.choice(["nbhd", "nbhd", "inbhd", "nbrs", "nbrs", "inbrs", "nmask"])
             b.add(f"{op} {x} {y} {int(moore)} {int(ic)} {r}")
         if R.random() < 0.12:
             n = R.choice([0, 1, 2, 3, 5])
-            cs = [(R.randrange(w), R.randrange(h)) for _ in range(n)]
+            raw = R.random() < 0.2  # arbitrary integers: Python aliasing of -size..-1, IndexError beyond
+            cs = [(any_int(R, w), any_int(R, h)) if raw else (R.randrange(w), R.randrange(h)) for _ in range(n)]
             b.add(f"{R.choice(['clc', 'iclc'])} {n} " + " ".join(f"{x} {y}" for x, y in cs))
-    return b.scenario()
+    return b.scenario({"oq": True} if oq else None)
 
 
 def gen_c09_net(R, tier):
     n = R.randint(1, 8)
-    p = R.choice([0.0, 0.15, 0.3, 0.5, 1.0])
-    cand = [(a, c) for a in range(n) for c in range(a + 1, n) if R.random() < p]
-    R.shuffle(cand)
-    edges = [(a, c) if R.random() < 0.5 else (c, a) for a, c in cand]
+    edges = random_graph(R, n)
     nag = R.randint(0, 6)
     b = Builder(f"scenario net {n} {nag} {len(edges)} " + " ".join(f"{a} {c}" for a, c in edges))
     impl = b.impl
@@ -653,7 +953,8 @@ def gen_c09_net(R, tier):
             b.add(R.choice(["nagents", f"nisempty {R.randrange(n)}", "ndump"]))
         else:
             r = R.choice([0, 1, 1, 1, 2, 2, 3, 4, n, n + 1])
-            b.add(f"{R.choice(['nnbhd', 'nnbhd', 'nnbrs'])} {R.randrange(n)} {int(R.random() < 0.5)} {r}")
+            v = n + R.randrange(2) if R.random() < 0.04 else R.randrange(n)
+            b.add(f"{R.choice(['nnbhd', 'nnbhd', 'nnbrs'])} {v} {int(R.random() < 0.5)} {r}")
     return b.scenario()
 
 
@@ -681,6 +982,32 @@ def exhaustive_c09(max_side, radii, hex_radii):
                                             qs.append(f"nbhd {x} {y} {moore} {ic} {r}")
                     lines += qs + qs[::-7]
                     out.append(core.Scenario(lines, {"exhaustive": True}))
+    return out
+
+
+def exhaustive_c09_net(max_n):
+    """every simple undirected graph on up to max_n labelled nodes (edges added in lexicographic order, and once more reversed and
+    flipped, which changes G.neighbors order), every node, both include_center values, every radius 0..n; three agents on the
+    first nodes so that get_neighbors is exercised too — one scenario per node count and edge order"""
+    import itertools
+
+    out = []
+    for n in range(1, max_n + 1):
+        cand = [(a, c) for a in range(n) for c in range(a + 1, n)]
+        for flip in (False, True):
+            lines_all = []
+            for mask in range(1 << len(cand)):
+                es = [e for i, e in enumerate(cand) if mask >> i & 1]
+                if flip:
+                    es = [(c, a) for a, c in reversed(es)]
+                lines = [f"scenario net {n} 3 {len(es)} " + " ".join(f"{a} {c}" for a, c in es)]
+                lines += [f"nplace {a} {a % n}" for a in range(3)]
+                for v, ic, r in itertools.product(range(n), (0, 1), range(n + 1)):
+                    lines.append(f"nnbhd {v} {ic} {r}")
+                    if r <= 2:
+                        lines.append(f"nnbrs {v} {ic} {r}")
+                lines_all.append(lines)
+            out += [core.Scenario(ls, {"exhaustive": True}) for ls in lines_all]
     return out
 
 
@@ -731,10 +1058,100 @@ def check_views(H, s, bad, where):
             break
 
 
+def check_views_net(H, s, bad, where):
+    """pos / node-list agreement on one NetworkGrid snapshot"""
+    where_is = {}
+    for v, l in s["cells"].items():
+        if len(set(l)) != len(l):
+            bad.append(f"net-pos-content: {where}: node {v} lists an agent twice: {l}")
+        for a in l:
+            where_is.setdefault(a, []).append(int(v))
+    for a, p in enumerate(s["pos"]):
+        occ = where_is.get(a, [])
+        if p is None:
+            if occ:
+                bad.append(f"net-pos-content: {where}: agent {a} has pos None but is in node(s) {occ}")
+        elif occ != [p]:
+            bad.append(f"net-pos-content: {where}: agent {a} has pos {p} but is in node(s) {occ}")
+
+
+def oracle_c08_net(sc, obs, H):
+    """NetworkGrid as a space: the C08-style clauses evaluated on the implementation's trace"""
+    tr = sc.meta.get("trace") or []
+    bad = []
+    n = H["n"]
+    for i, e in enumerate(tr):
+        op, res, B, A = e["op"], e["res"], trace_before(tr, i), e["after"]
+        k = op[0]
+        where = f"line {i + 1} ({' '.join(op[:4])})"
+        if i == 0:
+            check_views_net(H, B, bad, "initial state")
+        check_views_net(H, A, bad, where)
+        Bc = {int(v): list(l) for v, l in B["cells"].items()}
+        Ac = {int(v): list(l) for v, l in A["cells"].items()}
+        same = (list(A["pos"]), Ac) == (list(B["pos"]), Bc)
+        mutator = k in ("nplace", "nremove", "nmove")
+        if res.startswith("err") and not same:
+            bad.append(f"net-reject-unchanged: {where}: raised {res} but the observable state changed")
+        if not mutator and not same:
+            bad.append(f"net-read-pure: {where}: a read changed the observable state")
+        if k == "nisempty":
+            v = int(op[1])
+            if v < n:
+                if not res.startswith("ok") or e["val"] != (not Bc[v]):
+                    bad.append(f"net-isempty: {where}: gave {res}, node holds {Bc[v]}")
+            elif res != "err Key":
+                bad.append(f"net-isempty: {where}: node {v} does not exist, gave {res}")
+        elif k in ("nclc", "niclc"):
+            vs = [int(x) for x in op[2:]]
+            if all(v < n for v in vs):
+                want = [a for v in vs for a in Bc[v]]
+                if not res.startswith("ok") or e["val"] != want:
+                    bad.append(f"net-clc: {where}: gave {res}, agents on those nodes are {want}")
+            elif res != "err Key":
+                bad.append(f"net-clc: {where}: a listed node does not exist, gave {res}")
+        elif k in ("nallc", "nagents"):
+            want = [a for v in range(n) for a in Bc[v]]
+            if not res.startswith("ok") or e["val"] != want:
+                bad.append(f"net-all: {where}: gave {res}, the node lists hold {want}")
+        if not mutator:
+            continue
+        a = int(op[1])
+        pa = B["pos"][a]
+        if any(A["pos"][j] != B["pos"][j] for j in range(H["nag"]) if j != a):
+            bad.append(f"net-frame: {where}: the position of an agent not named in the call changed")
+        touched = {pa} | ({int(op[2])} if k != "nremove" else set())
+        if any(Ac[v] != Bc[v] for v in range(n) if v not in touched):
+            bad.append(f"net-frame: {where}: the list of a node not involved in the call changed")
+        if k == "nplace" and pa is None:
+            v = int(op[2])
+            if v >= n:
+                if res != "err Key":
+                    bad.append(f"net-place: {where}: node {v} does not exist, gave {res}")
+            elif res != "ok" or A["pos"][a] != v or Ac[v] != Bc[v] + [a]:
+                bad.append(f"net-place: {where}: gave {res}, pos {A['pos'][a]}, node list {Ac[v]}")
+        elif k == "nremove":
+            if pa is None:
+                if res != "err Key":
+                    bad.append(f"net-remove: {where}: agent not in the space, gave {res}")
+            elif res != "ok" or A["pos"][a] is not None or Ac[pa] != [x for x in Bc[pa] if x != a]:
+                bad.append(f"net-remove: {where}: gave {res}, pos {A['pos'][a]}, node list {Ac[pa]}")
+        elif k == "nmove":
+            v = int(op[2])
+            if v >= n or pa is None:
+                if res != "err Key":
+                    bad.append(f"net-move-reject: {where}: {'node does not exist' if v >= n else 'agent not in the space'}, gave {res}")
+            elif res != "ok" or A["pos"][a] != v or Ac[v] != [x for x in Bc[v] if x != a] + [a] or (pa != v and Ac[pa] != [x for x in Bc[pa] if x != a]):
+                bad.append(f"net-move: {where}: gave {res}, pos {A['pos'][a]}, target list {Ac[v]}, old list {Ac[pa]}")
+    return bad
+
+
 def oracle_c08(sc, obs):
     H = _hdr(sc)
-    if H["type"] != "grid" or sc.meta.get("oq"):
-        return []
+    if sc.meta.get("oq") or any(l.startswith("foreign ") for l in sc.lines):
+        return []  # outside the quantifier (also after shrinking): model-vs-code tie only
+    if H["type"] == "net":
+        return oracle_c08_net(sc, obs, H)
     tr = sc.meta.get("trace") or []
     bad = []
     w, h, torus, multi = H["w"], H["h"], H["torus"], H["multi"]
@@ -770,7 +1187,7 @@ def oracle_c08(sc, obs):
         elif k == "exists" and res.startswith("ok"):
             if e["val"] != bool(empties_now):
                 bad.append(f"exists: {where}: exists_empty_cells() = {e['val']}, empty cells are {empties_now}")
-        elif k == "isempty" and res.startswith("ok"):
+        elif k == "isempty" and res.startswith("ok") and ing((int(op[1]), int(op[2]))):
             c = (int(op[1]), int(op[2]))
             if e["val"] != (not Bc[c]):
                 bad.append(f"isempty: {where}: is_cell_empty = {e['val']}, cell holds {Bc[c]}")
@@ -794,6 +1211,61 @@ def oracle_c08(sc, obs):
                     bad.append(f"get-wrap: {where}: grid[{p}] gave {res}, cell {wrap(p)} holds {want}")
             elif res != "err OutOfBounds":
                 bad.append(f"get-reject: {where}: grid[{p}] on a bounded grid gave {res}")
+        elif k == "geti" and res.startswith("ok") and 0 <= int(op[1]) < w:
+            want = [Bc[(int(op[1]), y)] for y in range(h)]
+            if [tuple(x) for x in e["val"]] != want:
+                bad.append(f"index: {where}: grid[{op[1]}] shows {e['val']}, the column holds {want}")
+        elif k == "getl" and len(op) > 2:
+            ps = pairs(op[2:])
+            if all(ing(p) or torus for p in ps):
+                want = [Bc[wrap(p)] for p in ps]
+                if not res.startswith("ok") or [tuple(x) for x in e["val"]] != want:
+                    bad.append(f"index: {where}: grid[{ps}] gave {res}, those cells hold {want}")
+            elif res != "err OutOfBounds":
+                bad.append(f"get-reject: {where}: a position outside a bounded grid gave {res}")
+        elif k == "gets":
+            # reference: Python's own list slicing applied to the nested lists of cell contents (ints wrap / reject like grid[x, y])
+            ix, iy = parse_ix(op[1]), parse_ix(op[2])
+            ref = [[Bc[(x, y)] for y in range(h)] for x in range(w)]
+            want, rej = None, False
+            try:
+                if isinstance(ix, int) and isinstance(iy, int):
+                    if ing((ix, iy)) or torus:
+                        want = [Bc[wrap((ix, iy))]]
+                    else:
+                        rej = True
+                elif isinstance(ix, int):
+                    if 0 <= ix < w or torus:
+                        want = list(ref[ix % w][iy])
+                    else:
+                        rej = True
+                elif isinstance(iy, int):
+                    if 0 <= iy < h or torus:
+                        want = [col[iy % h] for col in ref[ix]]
+                    else:
+                        rej = True
+                else:
+                    want = [c for col in ref[ix] for c in col[iy]]
+            except ValueError:
+                want = "err Value"
+            if rej:
+                if res != "err OutOfBounds":
+                    bad.append(f"get-reject: {where}: an int index outside a bounded grid gave {res}")
+            elif want == "err Value":
+                if res != "err Value":
+                    bad.append(f"index: {where}: a zero slice step gave {res}")
+            elif not res.startswith("ok") or [tuple(x) for x in e["val"]] != want:
+                bad.append(f"index: {where}: gave {res}, Python slicing of the contents gives {want}")
+        elif k == "tadj":
+            p = (int(op[1]), int(op[2]))
+            if ing(p) or torus:
+                if not res.startswith("ok") or tuple(e["val"]) != wrap(p):
+                    bad.append(f"torus-adj: {where}: gave {res}, expected {wrap(p)}")
+            elif res != "err OutOfBounds":
+                bad.append(f"torus-adj: {where}: outside a bounded grid gave {res}")
+        elif k == "oob" and res.startswith("ok"):
+            if e["val"] != (not ing((int(op[1]), int(op[2])))):
+                bad.append(f"oob: {where}: out_of_bounds gave {e['val']}")
         if not mutator:
             continue
         a = int(op[1])
@@ -801,6 +1273,24 @@ def oracle_c08(sc, obs):
         if not others_same:
             bad.append(f"frame: {where}: the position of an agent not named in the call changed")
         pa = B["pos"][a]
+        if res == "ok" and not (k == "place" and pa is not None):
+            # what the call does to the cell lists: every agent whose pos changed left its old list and was appended to its new
+            # one (swap: a first, then the other), no other list is touched — the order inside a MultiGrid cell is observable
+            want = {c: list(l) for c, l in Bc.items()}
+            movers = [a] + ([int(op[2])] if k == "swap" and int(op[2]) != a else [])
+            movers = [m for m in movers if A["pos"][m] != B["pos"][m] or k in ("move", "mte", "mto")]
+            if k == "mto" and not pairs(split_script(op)[0][5:]):
+                movers = []
+            for m in movers:
+                if B["pos"][m] is not None and m in want[tuple(B["pos"][m])]:
+                    want[tuple(B["pos"][m])].remove(m)
+            for m in movers:
+                if A["pos"][m] is not None and tuple(A["pos"][m]) in want:
+                    want[tuple(A["pos"][m])].append(m)
+            Ac = {tuple(map(int, kk.split(","))): list(v) for kk, v in A["cells"].items()}
+            if Ac != want:
+                diff = sorted(c for c in want if want[c] != Ac.get(c))
+                bad.append(f"lists: {where}: cell list(s) {diff} are {[Ac.get(c) for c in diff]}, expected {[want[c] for c in diff]}")
         if k == "place" and pa is None:
             p = (int(op[2]), int(op[3]))
             occupied = bool(Bc[p])
@@ -912,6 +1402,8 @@ def orth_ball(w, h, torus, pos, moore, r):
 
 def oracle_c09(sc, obs):
     H = _hdr(sc)
+    if sc.meta.get("oq"):
+        return []
     tr = sc.meta.get("trace") or []
     bad = []
     if H["type"] == "net":
@@ -923,7 +1415,11 @@ def oracle_c09(sc, obs):
         for i, e in enumerate(tr):
             op, res, B = e["op"], e["res"], trace_before(tr, i)
             where = f"line {i + 1} ({' '.join(op)})"
-            if op[0] in ("nnbhd", "nnbrs") and res.startswith("ok"):
+            if op[0] in ("nnbhd", "nnbrs") and int(op[1]) >= n:
+                continue  # a node that is not in the graph: outside the quantifier, tie only
+            if op[0] in ("nnbhd", "nnbrs") and not res.startswith("ok"):
+                bad.append(f"net-raise: {where}: gave {res}")
+            elif op[0] in ("nnbhd", "nnbrs") and res.startswith("ok"):
                 v, ic, r = int(op[1]), op[2] == "1", int(op[3])
                 dist = {v: 0}
                 fr = [v]
@@ -947,7 +1443,7 @@ def oracle_c09(sc, obs):
                     wa = sorted(a for u in want for a in B["cells"][str(u)])
                     if sorted(e["val"]) != wa:
                         bad.append(f"net-neighbors: {where}: got {sorted(e['val'])}, agents on those nodes are {wa}")
-            elif op[0] == "nclc" and res.startswith("ok"):
+            elif op[0] == "nclc" and res.startswith("ok") and all(u < n for u in map(int, op[2:])):
                 wa = [a for u in map(int, op[2:]) for a in B["cells"][str(u)]]
                 if e["val"] != wa:
                     bad.append(f"net-clc: {where}: got {e['val']}, agents on those nodes are {wa}")
@@ -960,6 +1456,8 @@ def oracle_c09(sc, obs):
         k = op[0]
         where = f"line {i + 1} ({' '.join(op)})"
         if k in ("nbhd", "inbhd", "nbrs", "inbrs", "nmask"):
+            if H["hex"]:
+                continue  # get_neighborhood_mask inherited by a hex class: TypeError by construction (tie only)
             pos, moore, ic, r = (int(op[1]), int(op[2])), op[3] == "1", op[4] == "1", int(op[5])
             if not ing(pos):
                 if res != "err OutOfBounds":
@@ -973,16 +1471,19 @@ def oracle_c09(sc, obs):
                 want.discard(pos)
         elif k in ("hnbhd", "ihnbhd", "hnbrs", "ihnbrs"):
             pos, ic, r = (int(op[1]), int(op[2])), op[3] == "1", int(op[4])
+            if not ing(pos):
+                continue  # outside the quantifier: tie only
             if not res.startswith("ok"):
                 bad.append(f"nbhd-raise: {where}: gave {res}")
                 continue
             want = hex_ball(w, h, torus, pos, r)
             if not ic:
                 want.discard(pos)
-        elif k in ("clc", "iclc") and res.startswith("ok"):
-            wa = [a for c in pairs(op[2:]) for a in B["cells"][ck(c)]]
-            if e["val"] != wa:
-                bad.append(f"clc: {where}: got {e['val']}, agents in those cells are {wa}")
+        elif k in ("clc", "iclc"):
+            if all(ing(c) for c in pairs(op[2:])):  # in-grid coordinates: the property's clause; others: tie only
+                wa = [a for c in pairs(op[2:]) for a in B["cells"][ck(c)]]
+                if not res.startswith("ok") or e["val"] != wa:
+                    bad.append(f"clc: {where}: gave {res}, agents in those cells are {wa}")
             continue
         else:
             continue
@@ -1064,6 +1565,19 @@ def hexOdd : List (Int × Int) := {f(od)}
 end Mesa.Legacy.Gen
 """
     return {"MesaModel/Gen/LegacyTables.lean": content}
+
+
+def guarded(oracle):
+    """an oracle must not crash on whatever a changed implementation returns: an observation the clauses cannot even evaluate
+    (a pos that is no cell of the space, a value of the wrong shape) is reported as a failed clause"""
+
+    def run(sc, obs):
+        try:
+            return oracle(sc, obs)
+        except Exception as e:  # noqa: BLE001
+            return [f"unevaluable: the observations are outside what the property's clauses can be evaluated on ({type(e).__name__}: {e})"]
+
+    return run
 
 
 def tier_from_argv():
